@@ -209,6 +209,15 @@ def has_bound_var(e):
     return False
 
 
+class ListView(list):
+    """view of a display of known length; .raw is the executor's own object (its identity is the display's identity)"""
+    raw = None
+
+
+class DictView(dict):
+    raw = None
+
+
 class ObjView:
     """object bound to a heap snapshot; attribute access reads raw fields (no property resolution)"""
 
@@ -372,9 +381,13 @@ class Spec:
         if isinstance(v, SV):
             return self.view_term(v.t, v.ty, heap)
         if isinstance(v, (VTuple, VList)):
-            return [self.view(x, heap) for x in v.items]
+            r = ListView(self.view(x, heap) for x in v.items)
+            r.raw = v
+            return r
         if isinstance(v, VDict):
-            return {k: self.view(x, heap) for k, x in v.items.items()}
+            r = DictView((k, self.view(x, heap)) for k, x in v.items.items())
+            r.raw = v
+            return r
         if isinstance(v, bool) or v is None or isinstance(v, (str,)):
             return v
         if isinstance(v, (int, float)):
